@@ -151,6 +151,23 @@ package eval
 // Evaluation never writes the evaluator tree, the environment or the values (C19).
 //@ frameclean C19 (BoolEvaler)Eval PolicyToNode PartialPolicy
 
+// ------------------------------------------------------ constant folding (C04)
+// The meaning of a node is the meaning of its evaluator. Two nodes agree in an
+// environment when both fail or both succeed with the same value.
+//@ spec func resEq(a Evaler, b Evaler, env Env) bool = ((evE(a, env) == nil) == (evE(b, env) == nil)) && (evE(a, env) == nil ==> evV(a, env) == evV(b, env))
+
+//@ func tryFold
+//@   inline
+//@   loop 1
+//@     invariant len(nodes) == len(old(nodes))
+//@     invariant forall j int :: (0 <= j && j < $i) ==> nodes[j] == fold#0(old(nodes)[j])
+//@     invariant forall j int :: ($i <= j && j < len(nodes)) ==> nodes[j] == old(nodes)[j]
+//@     invariant allFolded ==> (len(values) == $i && (forall j int :: (0 <= j && j < $i) ==> ((nodes[j] is ast.NodeValue) && values[j] == nodes[j].(ast.NodeValue).Value)))
+//@ func tryFoldBinary
+//@   inline
+//@ func tryFoldUnary
+//@   inline
+
 // ---- generated by /verif/tools/gen_eval_contracts.py (regular part) ----
 
 // The evaluator interface: Eval is a deterministic function of the node and
@@ -738,39 +755,91 @@ package eval
 //@   props C01 C02
 //@   pure
 //@   results r
-//@   ensures (n is ast.NodeTypeAnd) ==> ((r is *andEval) && r.(*andEval).lhs == ToEval#0(n.(ast.NodeTypeAnd).Left) && r.(*andEval).rhs == ToEval#0(n.(ast.NodeTypeAnd).Right))
-//@   ensures (n is ast.NodeTypeOr) ==> ((r is *orEval) && r.(*orEval).lhs == ToEval#0(n.(ast.NodeTypeOr).Left) && r.(*orEval).rhs == ToEval#0(n.(ast.NodeTypeOr).Right))
-//@   ensures (n is ast.NodeTypeEquals) ==> ((r is *equalEval) && r.(*equalEval).lhs == ToEval#0(n.(ast.NodeTypeEquals).Left) && r.(*equalEval).rhs == ToEval#0(n.(ast.NodeTypeEquals).Right))
-//@   ensures (n is ast.NodeTypeNotEquals) ==> ((r is *notEqualEval) && r.(*notEqualEval).lhs == ToEval#0(n.(ast.NodeTypeNotEquals).Left) && r.(*notEqualEval).rhs == ToEval#0(n.(ast.NodeTypeNotEquals).Right))
-//@   ensures (n is ast.NodeTypeGreaterThan) ==> ((r is *comparableValueGreaterThanEval) && r.(*comparableValueGreaterThanEval).lhs == ToEval#0(n.(ast.NodeTypeGreaterThan).Left) && r.(*comparableValueGreaterThanEval).rhs == ToEval#0(n.(ast.NodeTypeGreaterThan).Right))
-//@   ensures (n is ast.NodeTypeGreaterThanOrEqual) ==> ((r is *comparableValueGreaterThanOrEqualEval) && r.(*comparableValueGreaterThanOrEqualEval).lhs == ToEval#0(n.(ast.NodeTypeGreaterThanOrEqual).Left) && r.(*comparableValueGreaterThanOrEqualEval).rhs == ToEval#0(n.(ast.NodeTypeGreaterThanOrEqual).Right))
-//@   ensures (n is ast.NodeTypeLessThan) ==> ((r is *comparableValueLessThanEval) && r.(*comparableValueLessThanEval).lhs == ToEval#0(n.(ast.NodeTypeLessThan).Left) && r.(*comparableValueLessThanEval).rhs == ToEval#0(n.(ast.NodeTypeLessThan).Right))
-//@   ensures (n is ast.NodeTypeLessThanOrEqual) ==> ((r is *comparableValueLessThanOrEqualEval) && r.(*comparableValueLessThanOrEqualEval).lhs == ToEval#0(n.(ast.NodeTypeLessThanOrEqual).Left) && r.(*comparableValueLessThanOrEqualEval).rhs == ToEval#0(n.(ast.NodeTypeLessThanOrEqual).Right))
-//@   ensures (n is ast.NodeTypeSub) ==> ((r is *subtractEval) && r.(*subtractEval).lhs == ToEval#0(n.(ast.NodeTypeSub).Left) && r.(*subtractEval).rhs == ToEval#0(n.(ast.NodeTypeSub).Right))
-//@   ensures (n is ast.NodeTypeAdd) ==> ((r is *addEval) && r.(*addEval).lhs == ToEval#0(n.(ast.NodeTypeAdd).Left) && r.(*addEval).rhs == ToEval#0(n.(ast.NodeTypeAdd).Right))
-//@   ensures (n is ast.NodeTypeMult) ==> ((r is *multiplyEval) && r.(*multiplyEval).lhs == ToEval#0(n.(ast.NodeTypeMult).Left) && r.(*multiplyEval).rhs == ToEval#0(n.(ast.NodeTypeMult).Right))
-//@   ensures (n is ast.NodeTypeContains) ==> ((r is *containsEval) && r.(*containsEval).lhs == ToEval#0(n.(ast.NodeTypeContains).Left) && r.(*containsEval).rhs == ToEval#0(n.(ast.NodeTypeContains).Right))
-//@   ensures (n is ast.NodeTypeContainsAll) ==> ((r is *containsAllEval) && r.(*containsAllEval).lhs == ToEval#0(n.(ast.NodeTypeContainsAll).Left) && r.(*containsAllEval).rhs == ToEval#0(n.(ast.NodeTypeContainsAll).Right))
-//@   ensures (n is ast.NodeTypeContainsAny) ==> ((r is *containsAnyEval) && r.(*containsAnyEval).lhs == ToEval#0(n.(ast.NodeTypeContainsAny).Left) && r.(*containsAnyEval).rhs == ToEval#0(n.(ast.NodeTypeContainsAny).Right))
-//@   ensures (n is ast.NodeTypeIn) ==> ((r is *inEval) && r.(*inEval).lhs == ToEval#0(n.(ast.NodeTypeIn).Left) && r.(*inEval).rhs == ToEval#0(n.(ast.NodeTypeIn).Right))
-//@   ensures (n is ast.NodeTypeGetTag) ==> ((r is *getTagEval) && r.(*getTagEval).lhs == ToEval#0(n.(ast.NodeTypeGetTag).Left) && r.(*getTagEval).rhs == ToEval#0(n.(ast.NodeTypeGetTag).Right))
-//@   ensures (n is ast.NodeTypeHasTag) ==> ((r is *hasTagEval) && r.(*hasTagEval).lhs == ToEval#0(n.(ast.NodeTypeHasTag).Left) && r.(*hasTagEval).rhs == ToEval#0(n.(ast.NodeTypeHasTag).Right))
-//@   ensures (n is ast.NodeTypeNegate) ==> ((r is *negateEval) && r.(*negateEval).inner == ToEval#0(n.(ast.NodeTypeNegate).Arg))
-//@   ensures (n is ast.NodeTypeNot) ==> ((r is *notEval) && r.(*notEval).inner == ToEval#0(n.(ast.NodeTypeNot).Arg))
-//@   ensures (n is ast.NodeTypeIsEmpty) ==> ((r is *isEmptyEval) && r.(*isEmptyEval).lhs == ToEval#0(n.(ast.NodeTypeIsEmpty).Arg))
-//@   ensures (n is ast.NodeTypeAccess) ==> ((r is *attributeAccessEval) && r.(*attributeAccessEval).object == ToEval#0(n.(ast.NodeTypeAccess).Arg) && r.(*attributeAccessEval).attribute == n.(ast.NodeTypeAccess).Value)
-//@   ensures (n is ast.NodeTypeHas) ==> ((r is *hasEval) && r.(*hasEval).object == ToEval#0(n.(ast.NodeTypeHas).Arg) && r.(*hasEval).attribute == n.(ast.NodeTypeHas).Value)
-//@   ensures (n is ast.NodeTypeLike) ==> ((r is *likeEval) && r.(*likeEval).lhs == ToEval#0(n.(ast.NodeTypeLike).Arg) && r.(*likeEval).pattern == n.(ast.NodeTypeLike).Value)
-//@   ensures (n is ast.NodeTypeIfThenElse) ==> ((r is *ifThenElseEval) && r.(*ifThenElseEval).ifNode == ToEval#0(n.(ast.NodeTypeIfThenElse).If) && r.(*ifThenElseEval).thenNode == ToEval#0(n.(ast.NodeTypeIfThenElse).Then) && r.(*ifThenElseEval).elseNode == ToEval#0(n.(ast.NodeTypeIfThenElse).Else))
-//@   ensures (n is ast.NodeTypeIs) ==> ((r is *isEval) && r.(*isEval).lhs == ToEval#0(n.(ast.NodeTypeIs).Left) && r.(*isEval).rhs == n.(ast.NodeTypeIs).EntityType)
-//@   ensures (n is ast.NodeTypeIsIn) ==> ((r is *isInEval) && r.(*isInEval).lhs == ToEval#0(n.(ast.NodeTypeIsIn).Left) && r.(*isInEval).is == n.(ast.NodeTypeIsIn).EntityType && r.(*isInEval).rhs == ToEval#0(n.(ast.NodeTypeIsIn).Entity))
-//@   ensures (n is ast.NodeValue) ==> ((r is *literalEval) && r.(*literalEval).value == n.(ast.NodeValue).Value)
-//@   ensures (n is ast.NodeTypeVariable && (n.(ast.NodeTypeVariable).Name == "principal" || n.(ast.NodeTypeVariable).Name == "action" || n.(ast.NodeTypeVariable).Name == "resource" || n.(ast.NodeTypeVariable).Name == "context")) ==> ((r is *variableEval) && r.(*variableEval).variableName == n.(ast.NodeTypeVariable).Name)
+//@   ensures (n is ast.NodeTypeAnd) ==> ((r is *andEval) && r.(*andEval) != nil && r.(*andEval).lhs == ToEval#0(n.(ast.NodeTypeAnd).Left) && r.(*andEval).rhs == ToEval#0(n.(ast.NodeTypeAnd).Right))
+//@   ensures (n is ast.NodeTypeOr) ==> ((r is *orEval) && r.(*orEval) != nil && r.(*orEval).lhs == ToEval#0(n.(ast.NodeTypeOr).Left) && r.(*orEval).rhs == ToEval#0(n.(ast.NodeTypeOr).Right))
+//@   ensures (n is ast.NodeTypeEquals) ==> ((r is *equalEval) && r.(*equalEval) != nil && r.(*equalEval).lhs == ToEval#0(n.(ast.NodeTypeEquals).Left) && r.(*equalEval).rhs == ToEval#0(n.(ast.NodeTypeEquals).Right))
+//@   ensures (n is ast.NodeTypeNotEquals) ==> ((r is *notEqualEval) && r.(*notEqualEval) != nil && r.(*notEqualEval).lhs == ToEval#0(n.(ast.NodeTypeNotEquals).Left) && r.(*notEqualEval).rhs == ToEval#0(n.(ast.NodeTypeNotEquals).Right))
+//@   ensures (n is ast.NodeTypeGreaterThan) ==> ((r is *comparableValueGreaterThanEval) && r.(*comparableValueGreaterThanEval) != nil && r.(*comparableValueGreaterThanEval).lhs == ToEval#0(n.(ast.NodeTypeGreaterThan).Left) && r.(*comparableValueGreaterThanEval).rhs == ToEval#0(n.(ast.NodeTypeGreaterThan).Right))
+//@   ensures (n is ast.NodeTypeGreaterThanOrEqual) ==> ((r is *comparableValueGreaterThanOrEqualEval) && r.(*comparableValueGreaterThanOrEqualEval) != nil && r.(*comparableValueGreaterThanOrEqualEval).lhs == ToEval#0(n.(ast.NodeTypeGreaterThanOrEqual).Left) && r.(*comparableValueGreaterThanOrEqualEval).rhs == ToEval#0(n.(ast.NodeTypeGreaterThanOrEqual).Right))
+//@   ensures (n is ast.NodeTypeLessThan) ==> ((r is *comparableValueLessThanEval) && r.(*comparableValueLessThanEval) != nil && r.(*comparableValueLessThanEval).lhs == ToEval#0(n.(ast.NodeTypeLessThan).Left) && r.(*comparableValueLessThanEval).rhs == ToEval#0(n.(ast.NodeTypeLessThan).Right))
+//@   ensures (n is ast.NodeTypeLessThanOrEqual) ==> ((r is *comparableValueLessThanOrEqualEval) && r.(*comparableValueLessThanOrEqualEval) != nil && r.(*comparableValueLessThanOrEqualEval).lhs == ToEval#0(n.(ast.NodeTypeLessThanOrEqual).Left) && r.(*comparableValueLessThanOrEqualEval).rhs == ToEval#0(n.(ast.NodeTypeLessThanOrEqual).Right))
+//@   ensures (n is ast.NodeTypeSub) ==> ((r is *subtractEval) && r.(*subtractEval) != nil && r.(*subtractEval).lhs == ToEval#0(n.(ast.NodeTypeSub).Left) && r.(*subtractEval).rhs == ToEval#0(n.(ast.NodeTypeSub).Right))
+//@   ensures (n is ast.NodeTypeAdd) ==> ((r is *addEval) && r.(*addEval) != nil && r.(*addEval).lhs == ToEval#0(n.(ast.NodeTypeAdd).Left) && r.(*addEval).rhs == ToEval#0(n.(ast.NodeTypeAdd).Right))
+//@   ensures (n is ast.NodeTypeMult) ==> ((r is *multiplyEval) && r.(*multiplyEval) != nil && r.(*multiplyEval).lhs == ToEval#0(n.(ast.NodeTypeMult).Left) && r.(*multiplyEval).rhs == ToEval#0(n.(ast.NodeTypeMult).Right))
+//@   ensures (n is ast.NodeTypeContains) ==> ((r is *containsEval) && r.(*containsEval) != nil && r.(*containsEval).lhs == ToEval#0(n.(ast.NodeTypeContains).Left) && r.(*containsEval).rhs == ToEval#0(n.(ast.NodeTypeContains).Right))
+//@   ensures (n is ast.NodeTypeContainsAll) ==> ((r is *containsAllEval) && r.(*containsAllEval) != nil && r.(*containsAllEval).lhs == ToEval#0(n.(ast.NodeTypeContainsAll).Left) && r.(*containsAllEval).rhs == ToEval#0(n.(ast.NodeTypeContainsAll).Right))
+//@   ensures (n is ast.NodeTypeContainsAny) ==> ((r is *containsAnyEval) && r.(*containsAnyEval) != nil && r.(*containsAnyEval).lhs == ToEval#0(n.(ast.NodeTypeContainsAny).Left) && r.(*containsAnyEval).rhs == ToEval#0(n.(ast.NodeTypeContainsAny).Right))
+//@   ensures (n is ast.NodeTypeIn) ==> ((r is *inEval) && r.(*inEval) != nil && r.(*inEval).lhs == ToEval#0(n.(ast.NodeTypeIn).Left) && r.(*inEval).rhs == ToEval#0(n.(ast.NodeTypeIn).Right))
+//@   ensures (n is ast.NodeTypeGetTag) ==> ((r is *getTagEval) && r.(*getTagEval) != nil && r.(*getTagEval).lhs == ToEval#0(n.(ast.NodeTypeGetTag).Left) && r.(*getTagEval).rhs == ToEval#0(n.(ast.NodeTypeGetTag).Right))
+//@   ensures (n is ast.NodeTypeHasTag) ==> ((r is *hasTagEval) && r.(*hasTagEval) != nil && r.(*hasTagEval).lhs == ToEval#0(n.(ast.NodeTypeHasTag).Left) && r.(*hasTagEval).rhs == ToEval#0(n.(ast.NodeTypeHasTag).Right))
+//@   ensures (n is ast.NodeTypeNegate) ==> ((r is *negateEval) && r.(*negateEval) != nil && r.(*negateEval).inner == ToEval#0(n.(ast.NodeTypeNegate).Arg))
+//@   ensures (n is ast.NodeTypeNot) ==> ((r is *notEval) && r.(*notEval) != nil && r.(*notEval).inner == ToEval#0(n.(ast.NodeTypeNot).Arg))
+//@   ensures (n is ast.NodeTypeIsEmpty) ==> ((r is *isEmptyEval) && r.(*isEmptyEval) != nil && r.(*isEmptyEval).lhs == ToEval#0(n.(ast.NodeTypeIsEmpty).Arg))
+//@   ensures (n is ast.NodeTypeAccess) ==> ((r is *attributeAccessEval) && r.(*attributeAccessEval) != nil && r.(*attributeAccessEval).object == ToEval#0(n.(ast.NodeTypeAccess).Arg) && r.(*attributeAccessEval).attribute == n.(ast.NodeTypeAccess).Value)
+//@   ensures (n is ast.NodeTypeHas) ==> ((r is *hasEval) && r.(*hasEval) != nil && r.(*hasEval).object == ToEval#0(n.(ast.NodeTypeHas).Arg) && r.(*hasEval).attribute == n.(ast.NodeTypeHas).Value)
+//@   ensures (n is ast.NodeTypeLike) ==> ((r is *likeEval) && r.(*likeEval) != nil && r.(*likeEval).lhs == ToEval#0(n.(ast.NodeTypeLike).Arg) && r.(*likeEval).pattern == n.(ast.NodeTypeLike).Value)
+//@   ensures (n is ast.NodeTypeIfThenElse) ==> ((r is *ifThenElseEval) && r.(*ifThenElseEval) != nil && r.(*ifThenElseEval).ifNode == ToEval#0(n.(ast.NodeTypeIfThenElse).If) && r.(*ifThenElseEval).thenNode == ToEval#0(n.(ast.NodeTypeIfThenElse).Then) && r.(*ifThenElseEval).elseNode == ToEval#0(n.(ast.NodeTypeIfThenElse).Else))
+//@   ensures (n is ast.NodeTypeIs) ==> ((r is *isEval) && r.(*isEval) != nil && r.(*isEval).lhs == ToEval#0(n.(ast.NodeTypeIs).Left) && r.(*isEval).rhs == n.(ast.NodeTypeIs).EntityType)
+//@   ensures (n is ast.NodeTypeIsIn) ==> ((r is *isInEval) && r.(*isInEval) != nil && r.(*isInEval).lhs == ToEval#0(n.(ast.NodeTypeIsIn).Left) && r.(*isInEval).is == n.(ast.NodeTypeIsIn).EntityType && r.(*isInEval).rhs == ToEval#0(n.(ast.NodeTypeIsIn).Entity))
+//@   ensures (n is ast.NodeValue) ==> ((r is *literalEval) && r.(*literalEval) != nil && r.(*literalEval).value == n.(ast.NodeValue).Value)
+//@   ensures (n is ast.NodeTypeVariable && (n.(ast.NodeTypeVariable).Name == "principal" || n.(ast.NodeTypeVariable).Name == "action" || n.(ast.NodeTypeVariable).Name == "resource" || n.(ast.NodeTypeVariable).Name == "context")) ==> ((r is *variableEval) && r.(*variableEval) != nil && r.(*variableEval).variableName == n.(ast.NodeTypeVariable).Name)
 //@   ensures (n is ast.NodeTypeSet) ==> ((r is *setLiteralEval) && len(r.(*setLiteralEval).elements) == len(n.(ast.NodeTypeSet).Elements) && (forall i int :: (0 <= i && i < len(n.(ast.NodeTypeSet).Elements)) ==> r.(*setLiteralEval).elements[i] == ToEval#0(n.(ast.NodeTypeSet).Elements[i])))
 //@   ensures (n is ast.NodeTypeExtensionCall) ==> (exists args []Evaler :: len(args) == len(n.(ast.NodeTypeExtensionCall).Args) && (forall i int :: (0 <= i && i < len(args)) ==> args[i] == ToEval#0(n.(ast.NodeTypeExtensionCall).Args[i])) && r == newExtensionEval#0(n.(ast.NodeTypeExtensionCall).Name, args))
 //@   loop 1
 //@     invariant len(args) == len(v.Args) && !isnil(args) && (forall j int :: (0 <= j && j < $i) ==> args[j] == ToEval#0(v.Args[j]))
 //@   loop 3
 //@     invariant len(s) == len(v.Elements) && !isnil(s) && (forall j int :: (0 <= j && j < $i) ==> s[j] == ToEval#0(v.Elements[j]))
+
+// ---- constant folding: structure of the result (C04) ----
+// fold(n) is the node rebuilt from the folded children, or - only when every
+// child folded to a literal, the operator does not consult the request or the
+// entity store, and evaluating it on those literals succeeds - the literal result.
+//@ spec func isLit(x ast.IsNode) bool = x is ast.NodeValue
+//@ spec func emptyEnv() Env = mkstruct(Env, types.EntityGetter(emptymap(types.EntityMap)), nil, nil, nil, nil)
+//@ spec func foldOutcome(r ast.IsNode, rebuilt ast.IsNode, lits bool) bool = (r == rebuilt) || (lits && evE(ToEval#0(rebuilt), emptyEnv()) == nil && r == ast.IsNode(mkstruct(ast.NodeValue, evV(ToEval#0(rebuilt), emptyEnv()))))
+//@ func fold
+//@   props C04
+//@   pure
+//@   calldepth 8
+//@   dispatch Evaler.Eval@errorEval
+//@   results r
+//@   ensures (n is ast.NodeTypeAnd) ==> foldOutcome(r, ast.IsNode(mkstruct(ast.NodeTypeAnd, mkstruct(ast.BinaryNode, fold#0(n.(ast.NodeTypeAnd).Left), fold#0(n.(ast.NodeTypeAnd).Right)))), isLit(fold#0(n.(ast.NodeTypeAnd).Left)) && isLit(fold#0(n.(ast.NodeTypeAnd).Right)))
+//@   ensures (n is ast.NodeTypeOr) ==> foldOutcome(r, ast.IsNode(mkstruct(ast.NodeTypeOr, mkstruct(ast.BinaryNode, fold#0(n.(ast.NodeTypeOr).Left), fold#0(n.(ast.NodeTypeOr).Right)))), isLit(fold#0(n.(ast.NodeTypeOr).Left)) && isLit(fold#0(n.(ast.NodeTypeOr).Right)))
+//@   ensures (n is ast.NodeTypeEquals) ==> foldOutcome(r, ast.IsNode(mkstruct(ast.NodeTypeEquals, mkstruct(ast.BinaryNode, fold#0(n.(ast.NodeTypeEquals).Left), fold#0(n.(ast.NodeTypeEquals).Right)))), isLit(fold#0(n.(ast.NodeTypeEquals).Left)) && isLit(fold#0(n.(ast.NodeTypeEquals).Right)))
+//@   ensures (n is ast.NodeTypeNotEquals) ==> foldOutcome(r, ast.IsNode(mkstruct(ast.NodeTypeNotEquals, mkstruct(ast.BinaryNode, fold#0(n.(ast.NodeTypeNotEquals).Left), fold#0(n.(ast.NodeTypeNotEquals).Right)))), isLit(fold#0(n.(ast.NodeTypeNotEquals).Left)) && isLit(fold#0(n.(ast.NodeTypeNotEquals).Right)))
+//@   ensures (n is ast.NodeTypeGreaterThan) ==> foldOutcome(r, ast.IsNode(mkstruct(ast.NodeTypeGreaterThan, mkstruct(ast.BinaryNode, fold#0(n.(ast.NodeTypeGreaterThan).Left), fold#0(n.(ast.NodeTypeGreaterThan).Right)))), isLit(fold#0(n.(ast.NodeTypeGreaterThan).Left)) && isLit(fold#0(n.(ast.NodeTypeGreaterThan).Right)))
+//@   ensures (n is ast.NodeTypeGreaterThanOrEqual) ==> foldOutcome(r, ast.IsNode(mkstruct(ast.NodeTypeGreaterThanOrEqual, mkstruct(ast.BinaryNode, fold#0(n.(ast.NodeTypeGreaterThanOrEqual).Left), fold#0(n.(ast.NodeTypeGreaterThanOrEqual).Right)))), isLit(fold#0(n.(ast.NodeTypeGreaterThanOrEqual).Left)) && isLit(fold#0(n.(ast.NodeTypeGreaterThanOrEqual).Right)))
+//@   ensures (n is ast.NodeTypeLessThan) ==> foldOutcome(r, ast.IsNode(mkstruct(ast.NodeTypeLessThan, mkstruct(ast.BinaryNode, fold#0(n.(ast.NodeTypeLessThan).Left), fold#0(n.(ast.NodeTypeLessThan).Right)))), isLit(fold#0(n.(ast.NodeTypeLessThan).Left)) && isLit(fold#0(n.(ast.NodeTypeLessThan).Right)))
+//@   ensures (n is ast.NodeTypeLessThanOrEqual) ==> foldOutcome(r, ast.IsNode(mkstruct(ast.NodeTypeLessThanOrEqual, mkstruct(ast.BinaryNode, fold#0(n.(ast.NodeTypeLessThanOrEqual).Left), fold#0(n.(ast.NodeTypeLessThanOrEqual).Right)))), isLit(fold#0(n.(ast.NodeTypeLessThanOrEqual).Left)) && isLit(fold#0(n.(ast.NodeTypeLessThanOrEqual).Right)))
+//@   ensures (n is ast.NodeTypeMult) ==> foldOutcome(r, ast.IsNode(mkstruct(ast.NodeTypeMult, mkstruct(ast.BinaryNode, fold#0(n.(ast.NodeTypeMult).Left), fold#0(n.(ast.NodeTypeMult).Right)))), isLit(fold#0(n.(ast.NodeTypeMult).Left)) && isLit(fold#0(n.(ast.NodeTypeMult).Right)))
+//@   ensures (n is ast.NodeTypeContains) ==> foldOutcome(r, ast.IsNode(mkstruct(ast.NodeTypeContains, mkstruct(ast.BinaryNode, fold#0(n.(ast.NodeTypeContains).Left), fold#0(n.(ast.NodeTypeContains).Right)))), isLit(fold#0(n.(ast.NodeTypeContains).Left)) && isLit(fold#0(n.(ast.NodeTypeContains).Right)))
+//@   ensures (n is ast.NodeTypeContainsAll) ==> foldOutcome(r, ast.IsNode(mkstruct(ast.NodeTypeContainsAll, mkstruct(ast.BinaryNode, fold#0(n.(ast.NodeTypeContainsAll).Left), fold#0(n.(ast.NodeTypeContainsAll).Right)))), isLit(fold#0(n.(ast.NodeTypeContainsAll).Left)) && isLit(fold#0(n.(ast.NodeTypeContainsAll).Right)))
+//@   ensures (n is ast.NodeTypeContainsAny) ==> foldOutcome(r, ast.IsNode(mkstruct(ast.NodeTypeContainsAny, mkstruct(ast.BinaryNode, fold#0(n.(ast.NodeTypeContainsAny).Left), fold#0(n.(ast.NodeTypeContainsAny).Right)))), isLit(fold#0(n.(ast.NodeTypeContainsAny).Left)) && isLit(fold#0(n.(ast.NodeTypeContainsAny).Right)))
+//@   ensures (n is ast.NodeTypeSub) ==> foldOutcome(r, ast.IsNode(mkstruct(ast.NodeTypeSub, mkstruct(ast.BinaryNode, fold#0(n.(ast.NodeTypeSub).Left), fold#0(n.(ast.NodeTypeSub).Right)), mkstruct(ast.AddNode))), isLit(fold#0(n.(ast.NodeTypeSub).Left)) && isLit(fold#0(n.(ast.NodeTypeSub).Right)))
+//@   ensures (n is ast.NodeTypeAdd) ==> foldOutcome(r, ast.IsNode(mkstruct(ast.NodeTypeAdd, mkstruct(ast.BinaryNode, fold#0(n.(ast.NodeTypeAdd).Left), fold#0(n.(ast.NodeTypeAdd).Right)), mkstruct(ast.AddNode))), isLit(fold#0(n.(ast.NodeTypeAdd).Left)) && isLit(fold#0(n.(ast.NodeTypeAdd).Right)))
+//@   ensures (n is ast.NodeTypeIn) ==> r == ast.IsNode(mkstruct(ast.NodeTypeIn, mkstruct(ast.BinaryNode, fold#0(n.(ast.NodeTypeIn).Left), fold#0(n.(ast.NodeTypeIn).Right))))
+//@   ensures (n is ast.NodeTypeGetTag) ==> r == ast.IsNode(mkstruct(ast.NodeTypeGetTag, mkstruct(ast.BinaryNode, fold#0(n.(ast.NodeTypeGetTag).Left), fold#0(n.(ast.NodeTypeGetTag).Right))))
+//@   ensures (n is ast.NodeTypeHasTag) ==> r == ast.IsNode(mkstruct(ast.NodeTypeHasTag, mkstruct(ast.BinaryNode, fold#0(n.(ast.NodeTypeHasTag).Left), fold#0(n.(ast.NodeTypeHasTag).Right))))
+//@   ensures (n is ast.NodeTypeNegate) ==> foldOutcome(r, ast.IsNode(mkstruct(ast.NodeTypeNegate, mkstruct(ast.UnaryNode, fold#0(n.(ast.NodeTypeNegate).Arg)))), isLit(fold#0(n.(ast.NodeTypeNegate).Arg)))
+//@   ensures (n is ast.NodeTypeNot) ==> foldOutcome(r, ast.IsNode(mkstruct(ast.NodeTypeNot, mkstruct(ast.UnaryNode, fold#0(n.(ast.NodeTypeNot).Arg)))), isLit(fold#0(n.(ast.NodeTypeNot).Arg)))
+//@   ensures (n is ast.NodeTypeIsEmpty) ==> foldOutcome(r, ast.IsNode(mkstruct(ast.NodeTypeIsEmpty, mkstruct(ast.UnaryNode, fold#0(n.(ast.NodeTypeIsEmpty).Arg)))), isLit(fold#0(n.(ast.NodeTypeIsEmpty).Arg)))
+//@   ensures (n is ast.NodeTypeAccess) ==> foldOutcome(r, ast.IsNode(mkstruct(ast.NodeTypeAccess, mkstruct(ast.StrOpNode, fold#0(n.(ast.NodeTypeAccess).Arg), n.(ast.NodeTypeAccess).Value))), isLit(fold#0(n.(ast.NodeTypeAccess).Arg)) && !(fold#0(n.(ast.NodeTypeAccess).Arg).(ast.NodeValue).Value is types.EntityUID))
+//@   ensures (n is ast.NodeTypeHas) ==> foldOutcome(r, ast.IsNode(mkstruct(ast.NodeTypeHas, mkstruct(ast.StrOpNode, fold#0(n.(ast.NodeTypeHas).Arg), n.(ast.NodeTypeHas).Value))), isLit(fold#0(n.(ast.NodeTypeHas).Arg)) && !(fold#0(n.(ast.NodeTypeHas).Arg).(ast.NodeValue).Value is types.EntityUID))
+//@   ensures (n is ast.NodeTypeLike) ==> foldOutcome(r, ast.IsNode(mkstruct(ast.NodeTypeLike, fold#0(n.(ast.NodeTypeLike).Arg), n.(ast.NodeTypeLike).Value)), isLit(fold#0(n.(ast.NodeTypeLike).Arg)))
+//@   ensures (n is ast.NodeTypeIfThenElse) ==> foldOutcome(r, ast.IsNode(mkstruct(ast.NodeTypeIfThenElse, fold#0(n.(ast.NodeTypeIfThenElse).If), fold#0(n.(ast.NodeTypeIfThenElse).Then), fold#0(n.(ast.NodeTypeIfThenElse).Else))), isLit(fold#0(n.(ast.NodeTypeIfThenElse).If)) && isLit(fold#0(n.(ast.NodeTypeIfThenElse).Then)) && isLit(fold#0(n.(ast.NodeTypeIfThenElse).Else)))
+//@   ensures (n is ast.NodeTypeIs) ==> foldOutcome(r, ast.IsNode(mkstruct(ast.NodeTypeIs, fold#0(n.(ast.NodeTypeIs).Left), n.(ast.NodeTypeIs).EntityType)), isLit(fold#0(n.(ast.NodeTypeIs).Left)))
+//@   ensures (n is ast.NodeTypeIsIn) ==> r == ast.IsNode(mkstruct(ast.NodeTypeIsIn, mkstruct(ast.NodeTypeIs, fold#0(n.(ast.NodeTypeIsIn).Left), n.(ast.NodeTypeIsIn).EntityType), fold#0(n.(ast.NodeTypeIsIn).Entity)))
+//@   ensures (n is ast.NodeValue || n is ast.NodeTypeVariable) ==> r == n
+//@   ensures (n is ast.NodeTypeExtensionCall) ==> (r is ast.NodeValue || (r is ast.NodeTypeExtensionCall && r.(ast.NodeTypeExtensionCall).Name == n.(ast.NodeTypeExtensionCall).Name && len(r.(ast.NodeTypeExtensionCall).Args) == len(n.(ast.NodeTypeExtensionCall).Args) && (forall j int :: (0 <= j && j < len(n.(ast.NodeTypeExtensionCall).Args)) ==> r.(ast.NodeTypeExtensionCall).Args[j] == fold#0(n.(ast.NodeTypeExtensionCall).Args[j]))))
+//@   ensures (n is ast.NodeTypeSet) ==> (r is ast.NodeValue || (r is ast.NodeTypeSet && len(r.(ast.NodeTypeSet).Elements) == len(n.(ast.NodeTypeSet).Elements) && (forall j int :: (0 <= j && j < len(n.(ast.NodeTypeSet).Elements)) ==> r.(ast.NodeTypeSet).Elements[j] == fold#0(n.(ast.NodeTypeSet).Elements[j]))))
+//@   ensures (n is ast.NodeTypeRecord) ==> (r is ast.NodeValue || (r is ast.NodeTypeRecord && len(r.(ast.NodeTypeRecord).Elements) == len(n.(ast.NodeTypeRecord).Elements) && (forall j int :: (0 <= j && j < len(n.(ast.NodeTypeRecord).Elements)) ==> (r.(ast.NodeTypeRecord).Elements[j].Key == n.(ast.NodeTypeRecord).Elements[j].Key && r.(ast.NodeTypeRecord).Elements[j].Value == fold#0(n.(ast.NodeTypeRecord).Elements[j].Value)))))
+//@   loop 1
+//@     invariant len(args) == len(values) && !isnil(args)
+//@   loop 2
+//@     invariant len(elements) == len(v.Elements) && !isnil(elements) && (forall j int :: (0 <= j && j < $i) ==> elements[j] == v.Elements[j].Value)
+//@   loop 4
+//@     invariant len(el) == len(nodes) && !isnil(el) && (forall j int :: (0 <= j && j < $i) ==> (el[j].Key == v.Elements[j].Key && el[j].Value == nodes[j]))
+//@   loop 5
+//@     invariant len(el) == len(values) && !isnil(el)
 
 
